@@ -116,7 +116,6 @@ class C16:
                 (M64 // 10) * 10, (M64 // 10) * 10 + 9, (M64 // 10 + 1) * 10]
         lim += [2 ** 64 + d for d in range(-40, 41)] + [2 ** 32 + d for d in range(-12, 13)]
         lim += [M64 * 10 + d for d in range(0, 10)] + [(M64 // 10) * 100 + d for d in (0, 5, 6, 99)]
-        lim += [int("2" + "0" * 19), int("3" + "0" * 19), int("9" * 20), int("18446744073709551" + "%03d" % k) for k in ()] if False else []
         lim += [20000000000000000000, 30000000000000000000, 99999999999999999999, 18446744073709552000, 18446744073709560000]
         for v in lim:
             for pre in ("", "0", "000"):
